@@ -279,7 +279,10 @@ func (fr *frame) applyContract(x ssa.CallInstruction, callee *ssa.Function, meth
 	}
 	bindResults(&env2, rt, res)
 	for _, e := range c2.Ensures {
-		s.assert(implies(st.reach, fx.evalBool(e.E, &env2)))
+		// clauses that mention locals of the callee are checked in the callee but cannot be stated to callers
+		if t, ok := fx.tryEvalBool(e.E, &env2); ok {
+			s.assert(implies(st.reach, t))
+		}
 	}
 	if c2.PanicKind == "always" {
 		s.assert(not(st.reach))
@@ -396,4 +399,17 @@ func (fr *frame) runDefers(st *State, panicV *IfV) bool {
 		*st = *m
 	}
 	return recovered
+}
+
+func (fx *fnExec) tryEvalBool(e *Expr, env *Env) (t string, ok bool) {
+	defer func() {
+		if r := recover(); r != nil {
+			if ce, isCE := r.(contractErr); isCE && strings.HasPrefix(string(ce), "unknown identifier") {
+				t, ok = "", false
+				return
+			}
+			panic(r)
+		}
+	}()
+	return fx.evalBool(e, env), true
 }
